@@ -130,9 +130,20 @@ structure PeersWF (peers : List PeerSt) : Prop where
   addr : peers.Pairwise (fun a b => a.cfg.addr ≠ b.cfg.addr)
   idx  : peers.Pairwise (fun a b => a.cfg.idx ≠ b.cfg.idx)
 
-/-- every installed route sits under its own prefix and was learned from a configured peer -/
+/-- the source of a route is the speaker itself (API / locally injected) or a configured peer -/
+def SrcIn (g : Global) (peers : List PeerSt) (r : Cand) : Prop :=
+  r.src = localSrc ∨ ∃ ps ∈ peers, r.src = ps.cfg.srcInfo g
+
+theorem SrcIn.map {g : Global} {peers : List PeerSt} {r : Cand} (f : PeerSt → PeerSt)
+    (hf : ∀ ps, (f ps).cfg = ps.cfg) (h : SrcIn g peers r) : SrcIn g (peers.map f) r := by
+  rcases h with h | ⟨q, hq, hs⟩
+  · exact Or.inl h
+  · exact Or.inr ⟨f q, List.mem_map.mpr ⟨q, hq, rfl⟩, by rw [hf q]; exact hs⟩
+
+/-- every installed route sits under its own prefix and was injected locally or learned from a
+    configured peer -/
 def RibWF (w : W) : Prop :=
-  ∀ e ∈ w.rib, ∀ r ∈ e.2, r.pfx = e.1 ∧ ∃ ps ∈ w.peers, r.src = ps.cfg.srcInfo w.g
+  ∀ e ∈ w.rib, ∀ r ∈ e.2, r.pfx = e.1 ∧ SrcIn w.g w.peers r
 
 /-- **the C01 invariant**: an established (non route-server) peer holds, for every destination,
     exactly the export of the current best path -/
@@ -145,6 +156,7 @@ structure Inv (w : W) : Prop where
   keys  : w.rib.Pairwise (fun a b => a.1 ≠ b.1)      -- one Loc-RIB entry per destination
   rib   : RibWF w
   views : ViewsOK w
+  nodup : ∀ e ∈ w.rib, NodupKey e.2                   -- one path per (source, path-id)
 
 theorem mem_ribOf (w : W) (pfx : Nat) (r : Cand) (h : r ∈ w.ribOf pfx) :
     ∃ e ∈ w.rib, e.1 = pfx ∧ r ∈ e.2 := by
@@ -177,23 +189,27 @@ theorem peer_of_addr {peers : List PeerSt} (wf : PeersWF peers) {a b : PeerSt}
 /-- the two side conditions of `delta_correct` follow from RibWF + PeersWF -/
 theorem wf_for_delta (w : W) (hp : PeersWF w.peers) (ps : PeerSt) (hps : ps ∈ w.peers)
     (l1 l2 : List Cand)
-    (h1 : ∀ r ∈ l1, ∃ q ∈ w.peers, r.src = q.cfg.srcInfo w.g)
-    (h2 : ∀ r ∈ l2, ∃ q ∈ w.peers, r.src = q.cfg.srcInfo w.g) :
+    (h1 : ∀ r ∈ l1, SrcIn w.g w.peers r)
+    (h2 : ∀ r ∈ l2, SrcIn w.g w.peers r) :
     (∀ o, l1.head? = some o → FromPeerWF w.g ps.cfg o) ∧
     (∀ b o, l2.head? = some b → l1.head? = some o → b.src.equal o.src = true → b.src = o.src) := by
   constructor
   · intro o ho haddr
-    obtain ⟨q, hq, hsrc⟩ := h1 o (List.mem_of_mem_head? ho)
-    rw [hsrc, srcInfo_addr] at haddr
-    have : q = ps := peer_of_addr hp hq hps (by simpa using haddr)
-    rw [hsrc, this]
+    rcases h1 o (List.mem_of_mem_head? ho) with hl | ⟨q, hq, hsrc⟩
+    · rw [hl] at haddr; cases haddr
+    · rw [hsrc, srcInfo_addr] at haddr
+      have : q = ps := peer_of_addr hp hq hps (by simpa using haddr)
+      rw [hsrc, this]
   · intro b o hb ho heq
-    obtain ⟨q1, hq1, hs1⟩ := h2 b (List.mem_of_mem_head? hb)
-    obtain ⟨q2, hq2, hs2⟩ := h1 o (List.mem_of_mem_head? ho)
     have haddr := srcEqual_addr heq
-    rw [hs1, hs2, srcInfo_addr, srcInfo_addr] at haddr
-    have : q1 = q2 := peer_of_addr hp hq1 hq2 (by simpa using haddr)
-    rw [hs1, hs2, this]
+    rcases h2 b (List.mem_of_mem_head? hb) with hl1 | ⟨q1, hq1, hs1⟩ <;>
+      rcases h1 o (List.mem_of_mem_head? ho) with hl2 | ⟨q2, hq2, hs2⟩
+    · rw [hl1, hl2]
+    · rw [hl1, hs2, srcInfo_addr] at haddr; cases haddr
+    · rw [hs1, hl2, srcInfo_addr] at haddr; cases haddr
+    · rw [hs1, hs2, srcInfo_addr, srcInfo_addr] at haddr
+      have : q1 = q2 := peer_of_addr hp hq1 hq2 (by simpa using haddr)
+      rw [hs1, hs2, this]
 
 
 /-! ### what the fan-out sends concerns the destination being updated -/
@@ -327,7 +343,7 @@ theorem fanout_peers (w : W) (oldL newL : List Cand) :
 /-- a route an operation may install for destination `pfx`: filed under `pfx`, learned from a
     configured peer -/
 def OpWF (w : W) (pfx : Nat) : Op → Prop
-  | .ann r => r.pfx = pfx ∧ ∃ ps ∈ w.peers, r.src = ps.cfg.srcInfo w.g
+  | .ann r => r.pfx = pfx ∧ SrcIn w.g w.peers r
   | .wd _ => True
 
 theorem pairwise_map_cfg {R : PeerCfg → PeerCfg → Prop} (l : List PeerSt) (f : PeerSt → PeerSt)
@@ -353,14 +369,14 @@ theorem ribUpdate_inv (w : W) (op : Op) (pfx : Nat) (hinv : Inv w) (hop : OpWF w
   have hg' : (w.setRib pfx newL).g = w.g := rfl
   have hp' : (w.setRib pfx newL).peers = w.peers := rfl
   -- facts about the two path lists
-  have holdWF : ∀ r ∈ oldL, r.pfx = pfx ∧ ∃ q ∈ w.peers, r.src = q.cfg.srcInfo w.g := by
+  have holdWF : ∀ r ∈ oldL, r.pfx = pfx ∧ SrcIn w.g w.peers r := by
     intro r hr
     rw [← hold] at hr
     obtain ⟨e, he, hep, hre⟩ := mem_ribOf w pfx r hr
     have := hinv.rib e he r hre
     rw [hep] at this
     exact this
-  have hnewWF : ∀ r ∈ newL, r.pfx = pfx ∧ ∃ q ∈ w.peers, r.src = q.cfg.srcInfo w.g := by
+  have hnewWF : ∀ r ∈ newL, r.pfx = pfx ∧ SrcIn w.g w.peers r := by
     intro r hr
     rw [← hnew] at hr
     rcases calcStep_subset w.opts oldL op r hr with h | h
@@ -381,7 +397,20 @@ theorem ribUpdate_inv (w : W) (op : Op) (pfx : Nat) (hinv : Inv w) (hop : OpWF w
     · exact ⟨rfl, rfl⟩
   have hpeers' : (fanout (w.setRib pfx newL) oldL newL).peers = w.peers.map f := by
     rw [hpeers, hp', hg']
-  refine ⟨?_, ?_, ?_, ?_⟩
+  have holdN : NodupKey oldL := by
+    rw [← hold]; unfold W.ribOf
+    cases hf : w.rib.find? (fun x => x.1 == pfx) with
+    | none => exact List.Pairwise.nil
+    | some e => exact hinv.nodup e (List.mem_of_find?_eq_some hf)
+  refine ⟨?_, ?_, ?_, ?_, ?_⟩
+  rotate_right
+  · -- one path per (source, path-id)
+    intro e he
+    rw [hrib] at he
+    simp only [W.setRib, List.mem_cons] at he
+    rcases he with rfl | he
+    · rw [← hnew]; exact calcStep_nodup w.opts oldL op holdN
+    · exact hinv.nodup e (List.mem_filter.mp he).1
   · rw [hpeers']
     exact peersWF_map w.peers f (fun ps => (hfcfg ps).1) hinv.peers
   · rw [hrib]
@@ -395,14 +424,12 @@ theorem ribUpdate_inv (w : W) (op : Op) (pfx : Nat) (hinv : Inv w) (hop : OpWF w
     intro e he r hr
     rw [hrib] at he
     rw [hg, hg', hpeers']
-    have key : r.pfx = e.1 ∧ ∃ q ∈ w.peers, r.src = q.cfg.srcInfo w.g := by
+    have key : r.pfx = e.1 ∧ SrcIn w.g w.peers r := by
       simp only [W.setRib, List.mem_cons] at he
       rcases he with rfl | he
       · exact hnewWF r hr
       · exact hinv.rib e (List.mem_filter.mp he).1 r hr
-    refine ⟨key.1, ?_⟩
-    obtain ⟨q, hq, hsrc⟩ := key.2
-    exact ⟨f q, List.mem_map.mpr ⟨q, hq, rfl⟩, by rw [(hfcfg q).1]; exact hsrc⟩
+    exact ⟨key.1, key.2.map f (fun ps => (hfcfg ps).1)⟩
   · -- ViewsOK
     intro ps' hps' hup hrs q
     rw [hpeers'] at hps'
@@ -455,7 +482,7 @@ theorem ribUpdate_inv (w : W) (op : Op) (pfx : Nat) (hinv : Inv w) (hop : OpWF w
 
 theorem inv_of_eq (w w' : W) (h : Inv w) (hg : w'.g = w.g) (hp : w'.peers = w.peers)
     (hr : w'.rib = w.rib) : Inv w' := by
-  refine ⟨hp ▸ h.peers, hr ▸ h.keys, ?_, ?_⟩
+  refine ⟨hp ▸ h.peers, hr ▸ h.keys, ?_, ?_, hr ▸ h.nodup⟩
   · intro e he r hre
     rw [hr] at he
     rw [hg, hp]
@@ -475,10 +502,10 @@ theorem updPeer_inv (w : W) (idx : Nat) (f : PeerSt → PeerSt)
     intro ps; simp only [f']; split
     · exact hf ps
     · exact ⟨rfl, rfl, rfl⟩
-  refine ⟨peersWF_map w.peers f' (fun ps => (hf' ps).1) h.peers, h.keys, ?_, ?_⟩
+  refine ⟨peersWF_map w.peers f' (fun ps => (hf' ps).1) h.peers, h.keys, ?_, ?_, h.nodup⟩
   · intro e he r hre
-    obtain ⟨h1, q, hq, hs⟩ := h.rib e he r hre
-    exact ⟨h1, f' q, List.mem_map.mpr ⟨q, hq, rfl⟩, by rw [(hf' q).1]; exact hs⟩
+    obtain ⟨h1, hs⟩ := h.rib e he r hre
+    exact ⟨h1, hs.map f' (fun ps => (hf' ps).1)⟩
   · intro ps' hps' hup hrs q
     obtain ⟨ps, hps, rfl⟩ := List.mem_map.mp hps'
     rw [(hf' ps).2.1] at hup
@@ -492,15 +519,15 @@ theorem peer?_mem (w : W) (idx : Nat) (ps : PeerSt) (h : w.peer? idx = some ps) 
   exact ⟨List.mem_of_find?_eq_some h, by simpa using List.find?_some h⟩
 
 theorem propagate_inv (w : W) (x : PeerCfg) (r : Cand) (wd : Bool) (h : Inv w)
-    (hr : wd = false → ∃ ps ∈ w.peers, r.src = ps.cfg.srcInfo w.g) : Inv (propagate w x r wd) := by
+    (hr : wd = false → SrcIn w.g w.peers r) : Inv (propagate w x r wd) := by
   unfold propagate
   apply ribUpdate_inv w _ r.pfx h
   cases wd with
   | true => simp [OpWF]
   | false =>
     simp only [Bool.false_eq_true, if_false, OpWF]
-    obtain ⟨ps, hps, hs⟩ := hr rfl
-    split <;> exact ⟨rfl, ps, hps, hs⟩
+    have hs := hr rfl
+    split <;> exact ⟨rfl, hs⟩
 
 theorem adjAnnounce_route (a : Adj) (r : Cand) (rej : Bool) :
     (adjAnnounce a r rej).2.src = r.src ∧ (adjAnnounce a r rej).2.pfx = r.pfx := by
@@ -526,7 +553,7 @@ theorem recvAnn_inv (w : W) (idx : Nat) (r0 : Cand) (h : Inv w) : Inv (recvAnn w
       refine propagate_inv _ _ _ _ (updPeer_inv _ idx _ (fun _ => ⟨rfl, rfl, rfl⟩) h1) ?_
       intro _
       -- the updated peer list still contains a peer with this configuration
-      refine ⟨_, List.mem_map.mpr ⟨ps, hmem, rfl⟩, ?_⟩
+      refine Or.inr ⟨_, List.mem_map.mpr ⟨ps, hmem, rfl⟩, ?_⟩
       rw [ha.1, hsrc]
       show ps.cfg.srcInfo w.g = (if (ps.cfg.idx == idx) = true then _ else ps).cfg.srcInfo w.g
       split <;> rfl
@@ -639,10 +666,10 @@ theorem sessionUp_inv (w : W) (idx : Nat) (h : Inv w) : Inv (sessionUp w idx) :=
       if ps.cfg.idx == idx then { ps with up := true, view := transfer w1 ps.cfg } else ps
     have hcfg : ∀ ps, (f' ps).cfg = ps.cfg := by
       intro ps; simp only [f']; split <;> rfl
-    refine ⟨peersWF_map w1.peers f' hcfg h1.peers, h1.keys, ?_, ?_⟩
+    refine ⟨peersWF_map w1.peers f' hcfg h1.peers, h1.keys, ?_, ?_, h1.nodup⟩
     · intro e he r hre
-      obtain ⟨a, q, hq, hs⟩ := h1.rib e he r hre
-      exact ⟨a, f' q, List.mem_map.mpr ⟨q, hq, rfl⟩, by rw [hcfg q]; exact hs⟩
+      obtain ⟨a, hs⟩ := h1.rib e he r hre
+      exact ⟨a, hs.map f' hcfg⟩
     · intro ps' hps' hup hrs q
       obtain ⟨ps, hps, rfl⟩ := List.mem_map.mp hps'
       rw [hcfg ps] at hrs ⊢
@@ -660,6 +687,26 @@ theorem sessionUp_inv (w : W) (idx : Nat) (h : Inv w) : Inv (sessionUp w idx) :=
         simp only [f', hi', Bool.false_eq_true, if_false] at hup ⊢
         exact h1.views ps hps hup hrs q
 
+/-- a peer's session state and Adj-RIB-In are cleared: its view obligations vanish -/
+theorem downPeer_inv (w1 : W) (idx : Nat) (h1 : Inv w1) :
+    Inv (w1.updPeer idx (fun ps => { ps with up := false, view := [], adj := {} })) := by
+  let f' : PeerSt → PeerSt := fun ps =>
+    if ps.cfg.idx == idx then { ps with up := false, view := [], adj := {} } else ps
+  have hcfg : ∀ ps, (f' ps).cfg = ps.cfg := by
+    intro ps; simp only [f']; split <;> rfl
+  refine ⟨peersWF_map w1.peers f' hcfg h1.peers, h1.keys, ?_, ?_, h1.nodup⟩
+  · intro e he r hre
+    obtain ⟨a, hs⟩ := h1.rib e he r hre
+    exact ⟨a, hs.map f' hcfg⟩
+  · intro ps' hps' hup hrs q
+    obtain ⟨ps, hps, rfl⟩ := List.mem_map.mp hps'
+    rw [hcfg ps] at hrs ⊢
+    by_cases hi : (ps.cfg.idx == idx) = true
+    · simp [f', hi] at hup
+    · have hi' : (ps.cfg.idx == idx) = false := by simpa using hi
+      simp only [f', hi', Bool.false_eq_true, if_false] at hup ⊢
+      exact h1.views ps hps hup hrs q
+
 theorem sessionDown_inv (w : W) (idx : Nat) (h : Inv w) : Inv (sessionDown w idx) := by
   unfold sessionDown
   cases hp : w.peer? idx with
@@ -668,24 +715,7 @@ theorem sessionDown_inv (w : W) (idx : Nat) (h : Inv w) : Inv (sessionDown w idx
     simp only
     have h1 : Inv { w with tick := w.tick + 1 } := inv_of_eq w _ h rfl rfl rfl
     generalize ({ w with tick := w.tick + 1 } : W) = w1 at h1
-    -- the peer goes down: its view obligations vanish
-    have h2 : Inv (w1.updPeer idx (fun ps => { ps with up := false, view := [], adj := {} })) := by
-      let f' : PeerSt → PeerSt := fun ps =>
-        if ps.cfg.idx == idx then { ps with up := false, view := [], adj := {} } else ps
-      have hcfg : ∀ ps, (f' ps).cfg = ps.cfg := by
-        intro ps; simp only [f']; split <;> rfl
-      refine ⟨peersWF_map w1.peers f' hcfg h1.peers, h1.keys, ?_, ?_⟩
-      · intro e he r hre
-        obtain ⟨a, q, hq, hs⟩ := h1.rib e he r hre
-        exact ⟨a, f' q, List.mem_map.mpr ⟨q, hq, rfl⟩, by rw [hcfg q]; exact hs⟩
-      · intro ps' hps' hup hrs q
-        obtain ⟨ps, hps, rfl⟩ := List.mem_map.mp hps'
-        rw [hcfg ps] at hrs ⊢
-        by_cases hi : (ps.cfg.idx == idx) = true
-        · simp [f', hi] at hup
-        · have hi' : (ps.cfg.idx == idx) = false := by simpa using hi
-          simp only [f', hi', Bool.false_eq_true, if_false] at hup ⊢
-          exact h1.views ps hps hup hrs q
+    have h2 := downPeer_inv w1 idx h1
     -- every stored entry is withdrawn with fan-out
     generalize (w1.updPeer idx (fun ps => { ps with up := false, view := [], adj := {} })) = w2 at h2
     induction ps0.adj.entries generalizing w2 with
@@ -694,19 +724,10 @@ theorem sessionDown_inv (w : W) (idx : Nat) (h : Inv w) : Inv (sessionDown w idx
       simp only [List.foldl_cons]
       exact ih _ (propagate_inv w2 ps0.cfg e.r true h2 (fun h => by cases h))
 
-/-- **C01_quiescent**: after ANY history of session up / down, announcements, replacements and
-    withdrawals, every established (non route-server) peer holds — for every destination —
-    exactly the export of the current best path. -/
-theorem step_inv (w : W) (op : WOp) (h : Inv w) : Inv (step w op) := by
-  cases op with
-  | up i => exact sessionUp_inv w i h
-  | down i => exact sessionDown_inv w i h
-  | ann i r => exact recvAnn_inv w i r h
-  | wd i p k => exact recvWd_inv w i p k h
-
-theorem run_inv (w : W) (ops : List WOp) (h : Inv w) : Inv (ops.foldl step w) := by
-  induction ops generalizing w with
-  | nil => exact h
-  | cons op rest ih => exact ih _ (step_inv w op h)
+theorem ribOf_nodup (w : W) (h : Inv w) (pfx : Nat) : NodupKey (w.ribOf pfx) := by
+  unfold W.ribOf
+  cases hf : w.rib.find? (fun x => x.1 == pfx) with
+  | none => exact List.Pairwise.nil
+  | some e => exact h.nodup e (List.mem_of_find?_eq_some hf)
 
 end World
